@@ -64,6 +64,14 @@ let run req =
       | "fetch_chunk" ->
         let (s', r) = fetch_chunk sha256_o c !s (jnat (jfield op "height")) (jbytes (jfield op "chunk")) in
         s := s'; st_json want_io !s [("res", of_fres r)]
+      | "lookup" ->
+        let ((s', r), l) = lookup_header sha256_o c !s (jnat (jfield op "height")) (jbytes (jfield op "chunk")) in
+        s := s';
+        let lj = (match l with
+                  | LOk raw -> [("res", JStr "ok"); ("raw", of_bytes raw)]
+                  | LIndexError -> [("res", JStr "IndexError")]
+                  | LMismatch -> [("res", JStr "mismatch")]) in
+        st_json want_io !s (lj @ [("fetch", of_fres r)])
       | "has_header" -> JBool (has_header sha256_o c !s (jnat (jfield op "height")))
       | o -> raise (Model_error ("unknown op " ^ o)) in
     out := r :: !out) (jlist (jfield req "ops"));
